@@ -53,8 +53,8 @@ struct NodeX {
       case 21: s.rx(Frame::mk(0x580u + 0x30 + (o.a % 4 == 3 ? 1 : 0), 8, {0x43, 0x00, 0x20, 1, 1, 2, 3, 4})); break;
       case 22: { uint32_t k = o.a % 4;   // LSS: switch only / inquire only (answered only in configuration state) / configure / both
         if (k == 0) s.rx(Frame::mk(0x7E5, 8, {4, (uint8_t)(o.b % 2), 0, 0, 0, 0, 0, 0}));
-        else if (k == 1) s.rx(Frame::mk(0x7E5, 8, {94, 0, 0, 0, 0, 0, 0, 0}));
-        else if (k == 2) { s.rx(Frame::mk(0x7E5, 8, {17, (uint8_t)(1 + o.b % 100), 0, 0, 0, 0, 0, 0})); if (o.c % 2) s.rx(Frame::mk(0x7E5, 8, {23, 0, 0, 0, 0, 0, 0, 0})); }   // configure node id (+ store configuration: the reset then changes the node id)
+        else if (k == 1) s.rx(Frame::mk(0x7E5, 8, {(uint8_t)(o.b % 4 == 3 ? 76 : 94), 0, 0, 0, 0, 0, 0, 0}));   // inquire node id / identify non-configured remote slave
+        else if (k == 2) { s.rx(Frame::mk(0x7E5, 8, {17, (uint8_t)(o.b % 8 == 7 ? 255 : 1 + o.b % 100), 0, 0, 0, 0, 0, 0})); /* 255: the node becomes a non-configured LSS slave */ if (o.c % 2) s.rx(Frame::mk(0x7E5, 8, {23, 0, 0, 0, 0, 0, 0, 0})); }   // configure node id (+ store configuration: the reset then changes the node id)
         else { s.rx(Frame::mk(0x7E5, 8, {4, (uint8_t)(o.b % 2), 0, 0, 0, 0, 0, 0})); s.rx(Frame::mk(0x7E5, 8, {94, 0, 0, 0, 0, 0, 0, 0})); }
         break; }
       case 23: sdo(0x2B, (uint16_t)(0x1800 + o.b % 2), 5, (uint16_t[]){0, 5, 9}[o.a % 3]); break;
